@@ -121,7 +121,7 @@ pub fn run(ctx: Ctx) -> Report {
 pub fn meta() -> CheckMeta {
     CheckMeta {
         level: "exploration",
-        rule: "each case = a generated scheme (sizes <= 65535; incl. the built-in default, missing/empty line 0, junk entries, check marks, reversed ranges, any stop) driving the real send_authentication and a real client Session on a MemPipe that accepts whole writes (one write_all = one record); a single submitter issues stop+3 packets whose payload sizes are placed around the scheme's own sizes (L < s-7, s-7 <= L <= s, L > s, L > sum) ; the preamble (hash, announced length, bytes carried) and the write-length sequence of every session packet k are checked by a nondeterministic reference acceptor for line k (unpadded for k >= stop or a missing line); the server->client recording must contain no command-0 frame. Concurrent part: 2-4 tasks write at the same time for 1-3 rounds under random forced yields at the scheduling points; the j-th packet ON THE WIRE must be accepted by line j (the packet index may not be drawn in one order and the transport reached in another). End to end: the real Client (client.rs: authentication with its configured scheme, Settings + SYN + destination batched into the first packet) against the real Server behind a TCP relay that records the length of every TLS record, i.e. what an on-path observer sees; destinations IPv4 / IPv6 / names of 3-60 characters (different first-packet payloads), then stop+1 echoed chunks sized around the scheme's own sizes; the client->server application record sizes must be explainable as preamble (34 + a size of line 0), then packet k by line k (unpadded from stop on); while echoing, the server->client records must carry exactly the echoed bytes plus 7 bytes per frame. distinct_nontrivial = distinct (scheme, payload sizes, observed write sizes) with at least one shaped packet, plus distinct concurrent interleavings, plus distinct e2e (scheme, record sizes).".into(),
+        rule: "each case = a generated scheme (sizes <= 65535; incl. the built-in default, missing/empty line 0, junk entries, check marks, reversed ranges, any stop) driving the real send_authentication and a real client Session on a MemPipe that accepts whole writes (one write_all = one record); a single submitter issues stop+3 packets whose payload sizes are placed around the scheme's own sizes (L < s-7, s-7 <= L <= s, L > s, L > sum) ; the preamble (hash, announced length, bytes carried) and the write-length sequence of every session packet k are checked by a nondeterministic reference acceptor for line k (unpadded for k >= stop or a missing line); the server->client recording must contain no command-0 frame. Concurrent part: 2-4 tasks write at the same time for 1-3 rounds under random forced yields at the scheduling points; the j-th packet ON THE WIRE must be accepted by line j (the packet index may not be drawn in one order and the transport reached in another). End to end: the real Client (client.rs: authentication with its configured scheme, Settings + SYN + destination batched into the first packet) against the real Server behind a TCP relay that records the length of every TLS record, i.e. what an on-path observer sees; destinations IPv4 / IPv6 / names of 3-60 characters (different first-packet payloads), then stop+1 echoed chunks sized around the scheme's own sizes; the client->server application record sizes must be explainable as preamble (34 + a size of line 0), then packet k by line k (unpadded from stop on); while echoing, the server->client records must carry exactly the echoed bytes plus 7 bytes per frame. distinct_nontrivial = distinct (scheme, payload sizes, observed write sizes) with at least one shaped packet, plus distinct concurrent interleavings, plus distinct e2e (scheme, record sizes). End-to-end scheme-push variant (a quarter of the e2e cases): client configured with scheme A, server with B; the first connection is judged by A up to its first packet, is closed, and the connection dialled next must be explained by B from its preamble on.".into(),
         assumptions: vec!["write-call boundaries are observed because the MemPipe accepts every write whole".into(), "padding byte values are not judged, only sizes".into(), "concurrent part: 2-4 writers x 1-3 rounds under random forced yields on a ladder scheme (distinct size range per line); packets are delimited on the wire by their payload frames".into(), "end-to-end part: one TLS record per transport write below 16 KiB (rustls neither merges nor splits such writes), TLS 1.3 AEAD overhead of 17 bytes calibrated on the client's Finished record (otherwise inconclusive); the first session packet is the batch Settings + SYN + destination, as the anchored mechanism says; the session's own start-up keep-alive request (7 bytes) may land at any packet position; record sizes are cut into packets nondeterministically (any cut that the lines accept counts)".into()],
         floors: vec![("packets_checked_against_a_scheme_line", 1000), ("packets_checked_after_stop", 300), ("preambles_checked", 500), ("padding_bytes_explained", 10_000), ("concurrent_packets_checked", 500), ("e2e_cases_judged", 100), ("e2e_records_explained", 600), ("e2e_server_records_checked", 200), ("e2e_push_cases", 20)],
         exhaustive: false,
